@@ -9,7 +9,7 @@ IntT == Cls("Int", <<>>)
 Str == Cls("String", <<>>)
 TP(n, v, b) == [n |-> n, v |-> v, b |-> b]
 tT == Var("T", <<>>)
-\* Z<T>;  Y<T>;  X<T> : Y<Z<T>>;  W<T, U : Y<T>> : X<U>, Z<T>;  P<T> : Y<out T>       (table 2: Y<out T>, Z<in T>)
+\* Z<T>;  Y<T>;  X<T> : Y<Z<T>>;  W<T, U : Y<T>> : X<U>, Z<T>;  P<T> : Y<out T>       (table 2: Y<out T>, Z<in T>, W<T, out U : Y<T>>)
 Table(id) ==
   LET vY == IF id = 2 THEN "out" ELSE "inv"  vZ == IF id = 2 THEN "in" ELSE "inv" IN
   [Any    |-> [tp |-> <<>>, sup |-> <<>>],
@@ -19,7 +19,7 @@ Table(id) ==
    Z      |-> [tp |-> <<TP("T", vZ, <<>>)>>, sup |-> <<>>],
    Y      |-> [tp |-> <<TP("T", vY, <<>>)>>, sup |-> <<>>],
    X      |-> [tp |-> <<TP("T", "inv", <<>>)>>, sup |-> <<Cls("Y", <<Cls("Z", <<tT>>)>>)>>],
-   W      |-> [tp |-> <<TP("T", "inv", <<>>), TP("U", "inv", <<Cls("Y", <<tT>>)>>)>>,
+   W      |-> [tp |-> <<TP("T", "inv", <<>>), TP("U", IF id = 2 THEN "out" ELSE "inv", <<Cls("Y", <<tT>>)>>)>>,
                sup |-> <<Cls("X", <<Var("U", <<Cls("Y", <<tT>>)>>)>>), Cls("Z", <<tT>>)>>],
    P      |-> [tp |-> <<TP("T", "inv", <<>>)>>, sup |-> <<Cls("Y", <<Wild("out", <<tT>>)>>)>>]]
 Order == <<"Z", "Y", "X", "W", "P">>
